@@ -48,6 +48,11 @@ type wsRig struct {
 // the unit under test (nil: a recorder).
 func newWsRig(x *Ctx, uutClient bool, onReady func(r *wsRig)) *wsRig {
 	r := &wsRig{x: x, uutClient: uutClient, ready: make(chan struct{}), peerReady: make(chan struct{})}
+	x.Net.OnReadDone = func(c *simnet.Conn, n int) {
+		if c.Node() == "U" {
+			x.Ev("net-read", c.Name(), "", n)
+		}
+	}
 	var cl, sv *simnet.Conn
 	if uutClient {
 		cl, sv = x.Net.Pipe("U", "P")
